@@ -279,7 +279,7 @@ func resolveComputedFields(env *Environment, errorSink *validation.ErrorSink) *E
 					switch arg := t.Arguments[0].Value.(type) {
 					case *IntegerLiteralExpression:
 						if arg.Value.Cmp(big.NewInt(int64(*d.Length))) >= 0 {
-							errorSink.Add(validationError(t.Arguments[0], "index argument (%s) is too large for the vector of length %d", arg.Value.String(), *d.Length))
+							errorSink.Add(validationError(t.Arguments[0].Value, "index argument (%s) is too large for the vector of length %d", arg.Value.String(), *d.Length))
 						}
 					}
 				}
@@ -295,7 +295,7 @@ func resolveComputedFields(env *Environment, errorSink *validation.ErrorSink) *E
 				}
 
 				if !TypesEqual(argType, d.KeyType) {
-					errorSink.Add(validationError(t.Arguments[0], "incorrect map lookup argument type"))
+					errorSink.Add(validationError(t.Arguments[0].Value, "incorrect map lookup argument type"))
 					return t
 				}
 				argumentsValidated = true
